@@ -234,6 +234,9 @@ impl Sched {
 
 #[derive(Clone, Debug, Serialize, Deserialize, PartialEq)]
 pub enum TamperKind {
+    /// replace a U+FFFD character of the file by an invalid sequence of the same length
+    /// (decodes lossily to the same text); falls back to Flip when there is none
+    LossyTwin,
     Flip,
     Insert,
     Delete,
